@@ -20,6 +20,9 @@
                                         exactly the answer recorded at its linearization point
     linearized_answer                   an answer recorded in a legal history is the sequential cache's answer
                                         on the history before it
+    lookup_is_C04_sequential, proxy_is_C04_sequential
+                                        … and that answer is C04's `Cache.find` on C04's `Cache.run` of the stores and
+                                        clears linearized before (Bridge.lean; histories without `load`)
     cache_discipline_checked            the obligations on the table extracted from cache.cc (Gen.lean)
     cache_*                             the theorems above for `Gen.disc`, the discipline extracted from cache.cc
     driver_states_reachable             whatever the driver executes is reachable
@@ -34,6 +37,7 @@
 import Vita.C15.Inv
 import Vita.C15.Exec
 import Vita.C15.Gen
+import Vita.C15.Bridge
 namespace Vita.C15
 
 /-- **mutual exclusion** (any discipline: it is the lock's specification carried along every
@@ -144,27 +148,62 @@ theorem linearizable {d : Disc} (hd : d.ok = true) {c : Cfg} {s : S} (h : Reach 
   · intro t out ht
     have := hp.thr t; rw [ht] at this; exact this.1
 
+theorem lastOf_split (t : Tid) (e : Ev) : ∀ l : List Ev, lastOf t l = some e → ∃ l1 l2, l = l1 ++ e :: l2 := by
+  intro l
+  induction l with
+  | nil => intro h; simp [lastOf] at h
+  | cons x l ih =>
+    intro h
+    simp only [lastOf] at h
+    split at h
+    · simp only [Option.some.injEq] at h; subst h; exact ⟨[], l, rfl⟩
+    · obtain ⟨l1, l2, hl⟩ := ih h; exact ⟨x :: l1, l2, by rw [hl]; rfl⟩
+
 /-- a finished lookup returned what the sequential cache answers on the operations linearized before it -/
 theorem lookup_is_sequential {d : Disc} (hd : d.ok = true) {c : Cfg} {s : S} (h : Reach d c s) (t : Tid) (k : Key)
     (r : Option (List Tok)) (hdone : s.th t = .fDone k r) :
     ∃ l1 l2 m0, s.lin = l1 ++ .find t k r :: l2 ∧ replay c l2 = some m0 ∧ r = m0.find c k := by
   obtain ⟨hl, _, hf, _⟩ := linearizable hd h
   have hlast := hf t k r hdone
-  have hsplit : ∀ l : List Ev, lastOf t l = some (.find t k r) → ∃ l1 l2, l = l1 ++ .find t k r :: l2 := by
-    intro l
-    induction l with
-    | nil => intro h; simp [lastOf] at h
-    | cons e l ih =>
-      intro h
-      simp only [lastOf] at h
-      split at h
-      · simp only [Option.some.injEq] at h; subst h; exact ⟨[], l, rfl⟩
-      · obtain ⟨l1, l2, hl⟩ := ih h; exact ⟨e :: l1, l2, by rw [hl]; rfl⟩
-  obtain ⟨l1, l2, hs⟩ := hsplit s.lin hlast
+  obtain ⟨l1, l2, hs⟩ := lastOf_split t _ s.lin hlast
   rw [hs] at hl
   obtain ⟨m0, h0, hleg⟩ := linearized_answer l1 l2 _ hl
   refine ⟨l1, l2, m0, hs, h0, ?_⟩
   simpa [Mem.legal] using hleg
+
+/-! ### … and w.r.t. C04's specification object `Vita.C04.Cache` (Bridge.lean: `Mem.*` refines it under any
+    encoding of the keys in use that is injective and avoids the empty key; `load` has no counterpart in
+    C04's history language, so the statements are about histories without it) -/
+
+/-- **a finished lookup returned what C04's `Cache.find` answers after C04's `Cache.run` of the stores and
+    clears linearized before it** -/
+theorem lookup_is_C04_sequential {d : Disc} (hd : d.ok = true) {c : Cfg} (hM : c.M = 4294967295) {s : S}
+    (h : Reach d c s) (e : Enc) (idx : Vita.C04.Key → Nat) (dom : List Nat)
+    (hidx : ∀ k, e.ok k → idx (e.key k) = c.idx k) (hplain : ∀ x, x ∈ s.lin → x.plain e)
+    (t : Tid) (k : Key) (r : Option (List Tok)) (hdone : s.th t = .fDone k r) :
+    ∃ l1 l2, s.lin = l1 ++ .find t k r :: l2 ∧
+      ((Vita.C04.Cache.init idx dom).run (opsOf e c l2)).find (e.key k) = r.map e.fit := by
+  obtain ⟨hl, _, hf, _⟩ := linearizable hd h
+  obtain ⟨l1, l2, hs⟩ := lastOf_split t _ s.lin (hf t k r hdone)
+  rw [hs] at hl hplain
+  exact ⟨l1, l2, hs, find_is_C04 e c hM idx dom hidx l1 l2 t k r hplain hl⟩
+
+/-- what `evaluator_proxy::operator()` returned is C04's `Cache.find` answer for its own lookup (a hit),
+    or the value it stored itself after its lookup had missed -/
+theorem proxy_is_C04_sequential {d : Disc} (hd : d.ok = true) {c : Cfg} (hM : c.M = 4294967295) {s : S}
+    (h : Reach d c s) (e : Enc) (idx : Vita.C04.Key → Nat) (dom : List Nat)
+    (hidx : ∀ k, e.ok k → idx (e.key k) = c.idx k) (hplain : ∀ x, x ∈ s.lin → x.plain e)
+    (t : Tid) (k : Key) (v : List Tok) (hdone : s.th t = .pDone k v) :
+    (∃ l1 l2, s.lin = l1 ++ .find t k (some v) :: l2 ∧
+      ((Vita.C04.Cache.init idx dom).run (opsOf e c l2)).find (e.key k) = some (e.fit v)) ∨
+    (∃ id, lastOf t s.lin = some (.insert t k id) ∧ v = val c k id) := by
+  rcases proxy_is_linearized hd h t k v hdone with hh | hh
+  · left
+    have hl := history_legal h
+    obtain ⟨l1, l2, hs⟩ := lastOf_split t _ s.lin hh
+    rw [hs] at hl hplain
+    exact ⟨l1, l2, hs, find_is_C04 e c hM idx dom hidx l1 l2 t k (some v) hplain hl⟩
+  · right; exact hh
 
 /-! ### the discipline extracted from cache.cc (lean/Vita/C15/Gen.lean, regenerated on every run) -/
 
@@ -301,6 +340,32 @@ example : ∃ s, Reach Disc.canonical (twoSlots 1) s ∧ s.th 1 = .pDone 1 [(1, 
 example : ∃ s, Reach Disc.canonical (twoSlots 1) s ∧ s.th 0 = .sDone [(2, [(2, 5)]), (3, [(3, 0)])] := witness_of (n := 2)
   (as := [.lAcquire 1 1 [(1, 4), (2, 5)] true, .lEntry 1, .lEntry 1, .lSeal 1, .lRelease 1] ++ insertActs 1 3 0 1 ++
          [.sAcquire 0, .sStart 0, .sSlot 0, .sSlot 0, .sEnd 0]) (by decide)
+
+/-- an encoding of the keys 1 and 2 into C04's keys -/
+def encEx : Enc where
+  key := fun k => if k = 1 then ⟨1, 0⟩ else ⟨2, 0⟩
+  fit := fun v => v.map (fun w => UInt64.ofNat (w.1 * 100000 + w.2))
+  ok := fun k => k = 1 ∨ k = 2
+  key_inj := by
+    intro a b ha hb h
+    rcases ha with ha | ha <;> rcases hb with hb | hb <;> subst ha <;> subst hb <;> first | rfl | (exact absurd h (by decide))
+  key_ne0 := by
+    intro a ha
+    rcases ha with ha | ha <;> subst ha <;> decide
+
+/-- … for which the hypotheses of `lookup_is_C04_sequential` are met by a reachable state with a finished
+    lookup (insert 1, insert 2 into the same slot, clear(key 2) concurrently with the lookup of 1) -/
+example : ∃ s, Reach Disc.canonical (twoSlots 1) s ∧ s.th 0 = .fDone 1 none ∧
+    (∀ x, x ∈ s.lin → x.plain encEx) ∧ (twoSlots 1).M = 4294967295 := by
+  obtain ⟨s, hr, hs⟩ : ∃ s, execs Disc.canonical (twoSlots 1) 2 (S.init (twoSlots 1))
+      (insertActs 1 1 0 1 ++ insertActs 1 2 0 1 ++ [.fAcquire 0 1, .fCheck 0, .fRelease 0]) = some s ∧
+      (s.th 0 = .fDone 1 none ∧ s.lin = [.find 0 1 none, .insert 1 2 0, .insert 1 1 0]) := by
+    refine ⟨_, rfl, by decide, by decide⟩
+  refine ⟨s, reach_of_execs hr, hs.1, ?_, rfl⟩
+  intro x hx
+  rw [hs.2] at hx
+  simp only [List.mem_cons, List.not_mem_nil, or_false] at hx
+  rcases hx with hx | hx | hx <;> subst hx <;> simp [Ev.plain, encEx]
 
 /-- a legal history with a recorded lookup in the middle -/
 example : replay (twoSlots 1) ([.clear 0] ++ .find 1 1 (some [(1, 0)]) :: [.insert 0 1 0]) ≠ none := by decide
